@@ -7,10 +7,12 @@
 (***************************************************************************)
 EXTENDS StreamFamily, Json, TLC
 
-CONSTANTS MaxFullLen, MaxCuts
+CONSTANTS MaxFullLen, MaxCuts, AltFullLen, AltMaxCuts
 VARIABLES s, done
 
 Chunkings(bytes) == {SortedSeq(c) : c \in CutSets(Len(bytes), MaxFullLen, MaxCuts)}
+\* chunkings replayed (and model checked) under a declared non-UTF-8 charset
+AltChunkings(bytes) == {SortedSeq(c) : c \in CutSets(Len(bytes), AltFullLen, AltMaxCuts)}
 
 Init == s \in Family /\ done = FALSE
 Emit ==
@@ -21,6 +23,7 @@ Emit ==
                                bytes |-> s.bytes,
                                kinds |-> CutKinds(s.mode, s.bytes),
                                chunkings |-> Chunkings(s.bytes),
+                               alt |-> AltChunkings(s.bytes),
                                nitems |-> Len(Expected(s.mode, s.bytes)),
                                lastopen |-> LastUnterminated(s.mode, s.bytes)]))
 Spec == Init /\ [][Emit]_<<s, done>>
